@@ -367,7 +367,8 @@ Case gen_case(const std::string &profile, uint64_t seed, const GenOpts &go) {
         if (profile == "pipe" && !baseline && rs.chance(0.5)) {
             op.sched.strategy = sim::ST_STALL;
             static const int kinds[] = {4, 4, 24, 6, 27, 12};
-            op.sched.stall_kind = kinds[rs.below(6)]; op.sched.stall_k = (int)rs.range(20, 400); op.sched.stall_nth = (int)rs.range(1, 30);
+            op.sched.stall_kind = rs.chance(0.3) ? (int)rs.range(3, 32) : kinds[rs.below(6)];   // mostly after "panel taken" / around the pivot, else at any hook kind
+            op.sched.stall_k = (int)rs.range(20, 400); op.sched.stall_nth = (int)rs.range(1, 30);
             op.sched.sticky_q = 0.5;
         }
         if (profile == "term" && !baseline) {
@@ -674,6 +675,13 @@ Case gen_case(const std::string &profile, uint64_t seed, const GenOpts &go) {
         else if (item == 2) { c.tags["alloc_mode"] = 2; if (expert) { op.x.lwork = go.lwork_sufficient > 0 ? go.lwork_sufficient : (8L << 20); op.x.work_align = rc.chance(0.5) ? 4 : 0; } }
         else if (item - 3 < nfault) {
             long j = item - 3; int mode = (int)(j % 2); long k = j / 2 + 1;
+            long kslots = nfault / 2;
+            if (K > kslots) {
+                // more requests than items: the first third of the items takes k = 1, 2, ..., the rest is spread evenly (with seeded jitter)
+                // over the remaining requests, so that late requests (per-thread work arrays, L/U arrays) are reached in the quick tier too
+                long head = kslots / 3;
+                if (k > head) { long idx = k - head - 1, rest = kslots - head; k = head + 1 + (long)(((double)idx + rs.unit()) * (double)(K - head) / (double)rest); if (k > K) k = K; }
+            }
             if (k > K) k = 1 + (long)rs.below((uint64_t)K);
             if (mode == 0) op.faults.alloc_fail_from = k; else op.faults.alloc_fail_only = k;
             c.tags["alloc_mode"] = 3 + mode; c.tags["alloc_k"] = k;
